@@ -8,6 +8,10 @@ RULE = ("texts = toml-test corpus + seeded single/double-edit mutants (one symbo
 
 def run(ctx):
     parsecheck.run_parse(ctx, {"corpus", "mutants", "gen", "dates", "doc"}, {"verdict", "panic"})
+    # the value, key and key-path entry points on the value texts of the generator
+    h = ctx.build(features=("preserve_order",))
+    vp = parsecheck.value_texts(ctx, ctx.path("gen.ndjson"))
+    parsecheck.process_inputs(ctx, h, [("values", vp)], {"value-verdict", "key-verdict", "keypath-verdict"}, "value-events")
     return ctx.finish("model_checking", RULE)
 
 
